@@ -12,6 +12,7 @@ import (
 	"time"
 
 	"github.com/awslabs/operatorpkg/status"
+	appsv1 "k8s.io/api/apps/v1"
 	corev1 "k8s.io/api/core/v1"
 	policyv1 "k8s.io/api/policy/v1"
 	storagev1 "k8s.io/api/storage/v1"
@@ -117,6 +118,17 @@ func kindOf(obj any) string {
 		return "PDB"
 	case *storagev1.VolumeAttachment, *storagev1.VolumeAttachmentList:
 		return "VolumeAttachment"
+	// kinds the model knows but never stores: reads report them absent
+	case *storagev1.CSINode, *storagev1.CSINodeList:
+		return "CSINode"
+	case *corev1.PersistentVolumeClaim, *corev1.PersistentVolumeClaimList:
+		return "PersistentVolumeClaim"
+	case *corev1.PersistentVolume, *corev1.PersistentVolumeList:
+		return "PersistentVolume"
+	case *storagev1.StorageClass, *storagev1.StorageClassList:
+		return "StorageClass"
+	case *appsv1.DaemonSet, *appsv1.DaemonSetList:
+		return "DaemonSet"
 	}
 	panic(fmt.Sprintf("stubs.Client: unsupported object type %T", obj))
 }
